@@ -634,9 +634,11 @@ func drawEntry(rt *rapid.T) Entry {
 	case gen.V6:
 		e.Key = v6s[rapid.IntRange(0, len(v6s)-1).Draw(rt, "v6")]
 	case gen.MPLS:
-		e.Key = fmt.Sprint(rapid.IntRange(100, 102).Draw(rt, "mpls"))
+		// labels include the ends of the 20-bit range: 0 (explicit null) is a valid key
+		e.Key = fmt.Sprint([]uint64{100, 101, 102, 100, 101, 0, 16, 1048575}[rapid.IntRange(0, 7).Draw(rt, "mpls")])
 	default:
-		e.Key = fmt.Sprint(rapid.IntRange(1, 3).Draw(rt, "id"))
+		// ids include values beyond 32 bits (0 is not a valid next-hop index / group id)
+		e.Key = fmt.Sprint([]uint64{1, 2, 3, 1, 2, 1<<32 + 1, 1<<64 - 1}[rapid.IntRange(0, 6).Draw(rt, "id")])
 	}
 	return e
 }
